@@ -6,9 +6,12 @@
 (*                malformed]>>]   one entry per API call made (NewReader,   *)
 (*                Get, DecodeStream+drain, Decode), compared with the       *)
 (*                fault-free run of the same scenario                       *)
-(*   write side  [side |-> "write", hit, outs: <<[cls, carries]>>]  the     *)
-(*                Writer calls up to the first failing one or Close         *)
-(* hit: the planned source / sink operation was reached and failed.         *)
+(*   write side  [side |-> "write", hit, rhit, same, outs: <<[cls,          *)
+(*                carries]>>]  the Writer calls up to the first failing one *)
+(*                or Close; hit: a Write or Seek of the sink failed; rhit:  *)
+(*                a Read of the sink (Writer.Get) failed; same: the bytes   *)
+(*                in the sink equal those of the fault-free session         *)
+(* hit (read side): the planned source operation was reached and failed.    *)
 EXTENDS IOFaultRef, TraceLib
 
 Cases == Records
@@ -17,7 +20,13 @@ RunOK(r) ==
   THEN /\ \A j \in 1..Len(r.calls) : RefReadOutcomeOK(r.calls[j])
        /\ ~r.hit => \A j \in 1..Len(r.calls) : r.calls[j].same     \* no fault, no difference
   ELSE /\ RefWriteOK(r.hit, r.outs)
-       /\ ~r.hit => \A j \in 1..Len(r.outs) : r.outs[j].cls = "ok"
+       \* a failed READ of the sink (Writer.Get reading an object back) is a
+       \* matter of the read-side clause: the call fails carrying the error, or
+       \* nothing shows
+       /\ (~r.hit /\ r.rhit) => \A j \in 1..Len(r.outs) : r.outs[j].cls = "ok" \/ r.outs[j].carries
+       /\ (~r.hit /\ ~r.rhit) => \A j \in 1..Len(r.outs) : r.outs[j].cls = "ok"
+       \* a session that ends without an error has produced the fault-free bytes
+       /\ (\A j \in 1..Len(r.outs) : r.outs[j].cls = "ok") => r.same
 
 VARIABLES i, bad, done
 tvars == <<i, bad, done>>
